@@ -311,8 +311,8 @@ pub fn plan(prop: &str) -> Vec<Item> {
             // one context, three operations in sequence, no pool thread: whatever the context left queued or suspended on the
             // object is carried by its later awaiting / synchronous operations (seed C08-j)
             if prop != "C01" && prop != "C02" {
-                v.extend(prog_seq(kinds, "pool=0", true, Some(1), 2, 1));
-                v.extend(prog_seq(kinds, "pool=1", false, Some(0), 1, 3));
+                v.extend(prog_seq(kinds, "pool=0", true, Some(1), 2, if prop == "C07" || prop == "C08" { 1 } else { 2 }));
+                v.extend(prog_seq(kinds, "pool=1", false, Some(0), 1, 5));
             } else {
                 v.extend(prog_seq(kinds, "pool=0", true, Some(0), 1, 2));
             }
@@ -565,6 +565,12 @@ fn plan_base(prop: &str) -> Vec<Item> {
             v.extend(prog_pairs(&["S", "Sn", "Dx", "FDs"], "pool=1,busy=1", false, Some(1), 2, 2));
         }
         "C05" => {
+            // a protected value without drop glue: only the ordering of Desync::drop shows whether it waited (seed C05-k)
+            for state in [0, 1, 2] {
+                for pool in [0, 1, 2] {
+                    v.push(it("drop_plain", &format!("pool={},state={}", pool, state), Some(if pool == 2 { 1 } else { 2 }), if pool == 2 { 2 } else { 3 }));
+                }
+            }
             for state in 0..4 {
                 for dropper in 0..3 {
                     for pool in [0, 1, 2] {
@@ -880,6 +886,10 @@ fn plan_base(prop: &str) -> Vec<Item> {
             v.push(it("pipe_out", "pool=1,n=4,d=1,pat=0,d2=3", Some(2), 3));
             v.push(it("pipe_out", "pool=1,n=4,d=3,pat=0,d2=1", Some(2), 3));
             v.push(it("pipe_out", "pool=1,n=3,d=1,pat=2,d2=2", Some(1), 2));
+            // ... or before its first read, with the producer already throttled (seed C12-k)
+            v.push(it("pipe_out", "pool=1,n=3,d=1,pat=1,d2=3,d2at=0", Some(2), 3));
+            v.push(it("pipe_out", "pool=1,n=3,d=2,pat=1,d2=1,d2at=0", Some(2), 3));
+            v.push(it("pipe_out", "pool=2,n=3,d=1,pat=2,d2=3,d2at=0", Some(1), 2));
             v.push(it("pipe_partial", "pool=1,d=3,r=1,sinpoll=1", Some(1), 2));
             // the pipe's producer is the task that awaits a future_sync on the same Desync (no pool thread); yielding processing
             for (n, y) in [(1, 1), (2, 1), (2, 2), (3, 1)] {
@@ -938,6 +948,10 @@ fn plan_base(prop: &str) -> Vec<Item> {
             v.push(it("panic_contain", "pool=0,ctx=4", Some(2), 3));
             v.push(it("panic_contain", "pool=0,ctx=5", Some(2), 3));
             v.push(it("panic_contain", "pool=0,ctx=4,revive=1", Some(2), 3));
+            // the panicking operation owns a guard that uses a healthy object while the panic unwinds (seed C15-k)
+            for (ctx, pool) in [(0, 1), (0, 2), (1, 0), (1, 1), (2, 0), (2, 1), (3, 1), (4, 0), (5, 0)] {
+                v.push(it("panic_contain", &format!("pool={},ctx={},guard=1", pool, ctx), Some(if pool == 2 { 1 } else { 2 }), if pool == 2 { 2 } else { 3 }));
+            }
             for (pool, keep) in [(2, 0), (2, 1), (3, 0), (3, 2)] {
                 v.push(it("panic_many", &format!("pool={},keep={}", pool, keep), Some(1), 2));
             }
@@ -1016,6 +1030,9 @@ fn plan_base(prop: &str) -> Vec<Item> {
             v.push(it("panic_contain", "pool=0,ctx=4", Some(1), 2));
             v.push(it("panic_contain", "pool=0,ctx=4,revive=1", Some(2), 3));
             v.push(it("panic_contain", "pool=1,ctx=4,revive=1", Some(1), 2));
+            for state in [0, 1, 2] {
+                v.push(it("drop_plain", &format!("pool=1,state={}", state), Some(2), 3));
+            }
             // a blocking wait nested inside a blocking wait on one thread (seed C14-j)
             for inner in [0, 2] {
                 v.push(it("nested_wait", &format!("pool=0,inner={},seq=1,raw=0", inner), Some(2), 3));
@@ -1058,6 +1075,7 @@ pub fn owners(scenario: &str, part: &str) -> Vec<&'static str> {
         "excl_drop" => vec!["C07", "C01", "C04"],
         "repoll" => vec!["C07", "C01", "C04"],
         "nested_wait" => vec!["C04", "C03"],
+        "drop_plain" => vec!["C05"],
         "order_ctx" => vec!["C02", "C03"],
         "pipe_in_items" => vec!["C11", "C03"],
         "pipe_out" | "pipe_steal" | "pipe_rewake" | "pipe_partial" | "pipe_fs" => vec!["C12", "C03"],
